@@ -39,20 +39,20 @@ def P(bounds_quick, bounds_thorough, outside, assumptions=(), **kw):
 
 
 PROPS = {
-    "C01": P("shapes plain (archetypes {A},{A,B},{B,T},{A,P}; 3 removal variants: swapped row, swapped pointer row, last row) and relation (2 parents, 5 children over R1/R2 in 4 tables; variants: freed table + recycled parent id, emptied tables) built by the real API with capacity 1, component IDs 60..65 (straddling the first mask word), all growable slices clipped to len (every append reallocates); EVERY component value symbolic; one operation NewEntityRel/AddRel/Remove/Exchange/RemoveEntity/CopyEntity/Map1.Set with every entity and every 1-2 component list; after it: ghost model (mask, values, targets, liveness of every tracked handle) agrees, new components read zero, INV (index bijection, tables, archetypes, relation indices, zero rows) holds",
+    "C01": P("[also: the same steps through the typed API (Map2.NewEntity/Add, Exchange1.Exchange, Map2.Remove); table-level lemmas Remove/Add/AddAll/Reset with SYMBOLIC length, rows and index at capacity 4; invariants include the archetype graph (edges connect masks differing in exactly that bit), registry, pool free chain and filter cache] shapes plain (archetypes {A},{A,B},{B,T},{A,P}; 3 removal variants: swapped row, swapped pointer row, last row) and relation (2 parents, 5 children over R1/R2 in 4 tables; variants: freed table + recycled parent id, emptied tables) built by the real API with capacity 1, component IDs 60..65 (straddling the first mask word), all growable slices clipped to len (every append reallocates); EVERY component value symbolic; one operation NewEntityRel/AddRel/Remove/Exchange/RemoveEntity/CopyEntity/Map1.Set with every entity and every 1-2 component list; after it: ghost model (mask, values, targets, liveness of every tracked handle) agrees, new components read zero, INV (index bijection, tables, archetypes, relation indices, zero rows) holds",
              "quick plus pad 0/124/250 (top IDs 250..255), capacity 2, all shape variants, and all two-operation histories from both shapes",
              "more than 12 entities / 2 operations after the shape; typed mappers of arity > 2 (see C14); batch forms (C06)",
              ["INV as written in harness/world.go characterises consistent storage; the ghost model update is the documented effect (DESIGN.md A.1)"]),
-    "C04": P("relation shape as C01: SetRelations and RemoveEntity of every tracked entity (parents, children, dead handles) in 3 variants incl. emptied relation tables and a recycled parent id; relation index invariant (I-rel) and ghost targets checked after",
+    "C04": P("[also: scenario archetype move without naming the relation -> common target dies -> both freed tables recycled for new targets -> target death / add] relation shape as C01: SetRelations and RemoveEntity of every tracked entity (parents, children, dead handles) in 3 variants incl. emptied relation tables and a recycled parent id; relation index invariant (I-rel) and ghost targets checked after",
              "all 5 variants, pads 126/190, two-operation histories incl. Shrink", "RemoveEntities batch with several targets (C06 harness); chains deeper than 1"),
-    "C09": P("checking callbacks for all 7 built-in event types during every single operation of the C01 step harnesses (both shapes, valid calls): entity alive, is the affected entity, in exactly one row (Filter0 query from inside the callback), composition old (removals) / new (others), values and targets current, lock state as documented; emitted event multiset equals the documented one; batch AddBatch(relation)/RemoveBatch(relation)/RemoveEntities/SetRelationsBatch with symbolic filter: phase (removal events before any change, others after all), once per affected entity, locked",
+    "C09": P("[also: NewBatchFn into a non-empty table with create / add-relation observers] checking callbacks for all 7 built-in event types during every single operation of the C01 step harnesses (both shapes, valid calls): entity alive, is the affected entity, in exactly one row (Filter0 query from inside the callback), composition old (removals) / new (others), values and targets current, lock state as documented; emitted event multiset equals the documented one; batch AddBatch(relation)/RemoveBatch(relation)/RemoveEntities/SetRelationsBatch with symbolic filter: phase (removal events before any change, others after all), once per affected entity, locked",
              "same", "user callbacks that mutate; more than one observer per event type (C08)"),
     "C19": P("Stats() after shape + one structural operation (plain: new/remove/copy/shrink of every entity; relation: 8 table scenarios incl. target death with swap-removed table lists, recycling, Shrink), with Stats called before / between or not at all: all absolute laws of the statement against the real tables and the model, and incremental == fresh (field-wise, every archetype and table)",
              "same", "component type name strings; more than 2 operations between Stats calls"),
     "C11": P("isTrivial over a symbolic type descriptor of depth <= 1 (all 26 kinds at every node, structs of <= 3 fields, arrays): trivial implies pointer-free; registry flags of the harness types; I-zero (cells in rows >= len are zero, incl. pointer-bearing columns) and zero-on-add after RemoveEntity/Remove/New/batch Remove/Shrink steps; every raw (no write barrier) copy over a pointer-bearing cell is reported by the engine as memory-safety violation in ALL harnesses",
              "depth 2 descriptors", "garbage collection running concurrently, finalizer-observed collectability (Go runtime not encodable): only the storage-level sufficient conditions are decided",
              ["zero-length arrays of pointer types are treated as pointer-bearing (conservative)"]),
-    "C14": P("generated from one template per type (tools/gen_c14.py): Map1-12 (NewEntityFn, Get, HasAll, Set, Remove, AddFn, NewBatchFn; relation index at arities 1,2,5,12), Filter/Query0-8 (Next, Entity, Get, Count, EntityAt vs UnsafeQuery; relations at 1,2,4,8), Exchange1-8 (Exchange, AddFn, Remove, ExchangeBatchFn), Observer1-4: component types of pairwise different sizes (4..48 bytes), >= 2 rows per table, symbolic values; k-th typed pointer == Unsafe.Get(e, ids[k]), values agree in both directions, effects (Has/IDs/table) equal to the ID-based call",
+    "C14": P("[also: the single-component mapper Map[T] incl. relation variant] generated from one template per type (tools/gen_c14.py): Map1-12 (NewEntityFn, Get, HasAll, Set, Remove, AddFn, NewBatchFn; relation index at arities 1,2,5,12), Filter/Query0-8 (Next, Entity, Get, Count, EntityAt vs UnsafeQuery; relations at 1,2,4,8), Exchange1-8 (Exchange, AddFn, Remove, ExchangeBatchFn), Observer1-4: component types of pairwise different sizes (4..48 bytes), >= 2 rows per table, symbolic values; k-th typed pointer == Unsafe.Get(e, ids[k]), values agree in both directions, effects (Has/IDs/table) equal to the ID-based call",
              "same", "the code generator internal/generate itself (only the generated files in the tree are executed); Map batch variants beyond NewBatchFn (C06); arities are exhaustive for the listed methods",
              level="translation_validation"),
     "C20": P("the same harnesses under the four tag sets {}, {ark_tiny}, {ark_debug}, {ark_tiny,ark_debug}: mask algebra and filter.matches for all masks, FireAdd/FireRemove with symbolic observers, lock step, toTypes at counts {1,5,63,64}, model-based steps (Add, Exchange, RemoveEntity incl. rejected calls) and symbolic-filter query walks on shapes with component IDs 3..8, and misuse calls (query access before Next / after exhaustion / after Close, Set/Get/GetRelation of a missing component) with the default build's panic/no-panic outcome as the common expectation",
@@ -65,30 +65,30 @@ PROPS = {
     "C13": P("two threads over a relation world, each: Query (walk with Get/Entity), second Query with Count/EntityAt/Close; scenarios: same Filter2 warmed / first use, registered, per-query relation targets (also after a Batch call left a backing array in the filter), registered + per-query targets, two different filters incl. an unsafe query; thread-modular lockset analysis over ALL accesses to pre-existing memory and maps (a conflicting pair with disjoint locksets is a race), results exact per thread, world unlocked after join; counterexamples replayed with real goroutines under go test -race (30 repetitions)",
              "same", "more than two threads (races are pairwise and all threads run the same code; the 64-lock limit is C07); user code touching the same component memory from two queries; schedules are not enumerated: the second thread is analysed on the state the first one leaves",
              ["mutexes are the only synchronisation primitive in the library (SSA scan: no go/select/atomic)", "a conflicting access pair with disjoint locksets is unordered in some schedule"]),
-    "C10": P("every rejected call of the C01/C04 step harnesses (dead entity: never reused and recycled id; duplicate / already present / missing component; dead or recycled relation target; exchange of same component) must panic and leave model, INV and lock state unchanged",
+    "C10": P("[also: batch preconditions (component present/missing, dead target, missing relation target, mixed selection) and creation of relation components with the target omitted] every rejected call of the C01/C04 step harnesses (dead entity: never reused and recycled id; duplicate / already present / missing component; dead or recycled relation target; exchange of same component) must panic and leave model, INV and lock state unchanged",
              "same", "batch operations (lock state covered by C07); *Unchecked accessors; typed arities > 2"),
     "C05": P("registered Filter1/Filter2 with FULLY symbolic with/without masks and symbolic relation target (filter or per query) over both shapes: the cached walk/Count equals the model set (= uncached semantics); register/unregister bookkeeping",
              "same plus cache invariance under one following operation", "more than one registered filter at a time; open queries across register/unregister (known design gap, see DESIGN)"),
     "C06": P("AddBatchFn, RemoveBatch, ExchangeBatchFn (plain and relation-removing: several source tables into one destination), SetRelationsBatch, RemoveEntities, NewBatchFn/NewEntities over both shapes with a FULLY symbolic batch filter (+ symbolic relation target): selection = model set before the change, per-entity effect = single operation, callback exactly once per selected entity with that entity's pointer, world locked in callbacks, INV after",
              "same with all shape variants", "batches creating more than 3 entities; iteration order"),
-    "C02": P("entity pool of 4 and 6 slots (2 reserved), every id/generation/free-chain content satisfying I-pool, tight slice capacity; one step of Get / Recycle (+ re-issue) with an arbitrary previously issued handle as observer; Recycle of reserved ids",
+    "C02": P("[also: RemoveEntity/CopyEntity through stale handles (never reused, recycled id) on the relation shape; removal of dead handles after dump/load] entity pool of 4 and 6 slots (2 reserved), every id/generation/free-chain content satisfying I-pool, tight slice capacity; one step of Get / Recycle (+ re-issue) with an arbitrary previously issued handle as observer; Recycle of reserved ids",
              "same", "generation wrap after 2^32 recycles of one id (assumed not to happen); forged handles with ids never issued; world-level creators are covered by C01/C06 harnesses",
              ["I-pool with ghost alive/rank/maxGen describes reachable pools"]),
-    "C03": P("unsafe, Query1 and Query2 walks + Count + EntityAt(symbolic i) over both shapes with FULLY symbolic filter masks (256-bit with / without / hasWithout) and a symbolic relation target handle (id and generation: alive, dead, recycled, zero), yielded pointers/targets compared with random access; mask algebra (Get/Set/Clear/Not/OrI/Contains/ContainsAny/Equals/IsZero/newMask/TotalBitsSet) and filter.matches/Exclusive for ALL 256-bit masks and bit positions; query walks: see C03 world harnesses",
+    "C03": P("[also: filter builder API (With/Without/Exclusive, unsafe Without/Exclusive) yields the modelled filter; unsafe query walks after 9 structural scenarios (target death, table recycling with the same surviving target, Shrink)] unsafe, Query1 and Query2 walks + Count + EntityAt(symbolic i) over both shapes with FULLY symbolic filter masks (256-bit with / without / hasWithout) and a symbolic relation target handle (id and generation: alive, dead, recycled, zero), yielded pointers/targets compared with random access; mask algebra (Get/Set/Clear/Not/OrI/Contains/ContainsAny/Equals/IsZero/newMask/TotalBitsSet) and filter.matches/Exclusive for ALL 256-bit masks and bit positions; query walks: see C03 world harnesses",
              "same", "iteration order"),
-    "C08": P("each of the 9 dispatchers (FireCreateEntity, FireRemoveEntity, FireCreateEntityRel, FireRemoveEntityRel, FireAdd, FireRemove, FireSet, FireSetRelations, FireCustom) with 2 observers whose three 256-bit masks and flags are symbolic, aggregates symbolic under I-obs, earlyOut symbolic, transition masks fully symbolic; RemoveObserver at every position of 2 observers; AddObserver onto an arbitrary 1-observer state for 9 event types x 32 observer specs",
+    "C08": P("[also: batch dispatch over several tables with 2 symbolic observers (per-entity exactness of the early-out optimisation), SetRelations with two relations of which only some change, custom events through World.Event(...).Emit, observers unregistering observers inside callbacks] each of the 9 dispatchers (FireCreateEntity, FireRemoveEntity, FireCreateEntityRel, FireRemoveEntityRel, FireAdd, FireRemove, FireSet, FireSetRelations, FireCustom) with 2 observers whose three 256-bit masks and flags are symbolic, aggregates symbolic under I-obs, earlyOut symbolic, transition masks fully symbolic; RemoveObserver at every position of 2 observers; AddObserver onto an arbitrary 1-observer state for 9 event types x 32 observer specs",
              "3 observers per dispatcher; RemoveObserver with 3 observers", "more than 3 observers per event type; observer order",
              ["doc_pred is the rule of docs/content/events (all observed components affected together; With/Without against the entity composition)"]),
     "C15": P("Shrink from both shapes (capacity 2, emptied relation tables): model, INV (incl. relation indices) unchanged, reports no remaining work (clock assumed < 1h per call); capPow2, CanShrink/Shrink target and Extend growth arithmetic for ALL uint32 len/cap/minCapacity up to 2^31", "same", "capacities above 2^31 (uint32 overflow of capPow2)"),
     "C16": P("World.Reset from both shapes holding registered filters (with relation target), an observer (3 event types incl. 255), a resource and a used stats object: FRESH post-state (no handle alive, pool/index empty, all tables empty, relation tables free exactly once, indices empty, cache/observers/resources empty, unlocked, INV), nothing fires afterwards, re-registration works; then (optional Shrink and) a new population of 8 entities incl. 3 relation targets and one further operation satisfy the C01 model checks; observerManager.Reset from an arbitrary I-obs state with 1 (quick) or 2 observers, for EVERY event type 0..255", "same plus 2 observers", "see DESIGN"),
     "C17": P("MarshalBinary/AppendBinary/UnmarshalBinary for all 2^64 handles; inputs of every length 0..12 except 8 rejected with the entity unchanged (real encoding/binary SSA executed)", "same", "JSON codec (encoding/json not modelled); inputs longer than 12 bytes"),
-    "C18": P("registry step (known id stable, new id = count, overflow panics without consuming, unregisterLast) for counts 0..2 and max-2..max; toTypes for counts 0..3 and {64,65,255,256} with masks {lowest, one symbolic position, highest}; locked registration; Resources as a map for all id pairs",
+    "C18": P("[also: ComponentID/TypeID/ComponentIDs/ComponentInfo, ResourceID/AddResource/GetResource/Resource[T]/ResourceIDs/ResourceType] registry step (known id stable, new id = count, overflow panics without consuming, unregisterLast) for counts 0..2 and max-2..max; toTypes for counts 0..3 and {64,65,255,256} with masks {lowest, one symbolic position, highest}; locked registration; Resources as a map for all id pairs",
              "toTypes additionally at counts 63,127,128,129,191,192,193", "masks with more than 3 set bits in toTypes (popcount concretisation)"),
     "C07": {
         "level": "model_checking",
         "level_text": "Bounded symbolic model checking: one inductive step of each lock/bit-pool operation from an arbitrary invariant-satisfying state is decided by z3 for every value of every symbolic variable within the stated bounds.",
         "level_note": "Trusted: go/ssa, the engine's translation (validated by native replay of solver models each run), z3; the invariant is assumed to characterise reachable pool states.",
-        "bounds_quick": "bit pool: all 64-slot arrays with symbolic length<=8 plus the exhausted pool (length=64, available=0); every lock mask over those; one step of Get/Recycle/Reset/Lock/Unlock from an arbitrary state satisfying the free-chain invariant",
+        "bounds_quick": "[also: all interleavings of 3 actions over 3 query slots (typed, unsafe, cached: open / advance / close / attempted NewEntity) with the model locked-iff-some-query-open; every structural operation incl. batch forms, Reset, NewEntities, new component registration rejected without effect while a query is open, reads/writes/emit/nested queries work] bit pool: all 64-slot arrays with symbolic length<=8 plus the exhausted pool (length=64, available=0); every lock mask over those; one step of Get/Recycle/Reset/Lock/Unlock from an arbitrary state satisfying the free-chain invariant",
         "bounds_thorough": "as quick plus length<=16",
         "outside": "more than 64 simultaneous locks (specified panic); histories are covered through the inductive invariant only",
         "assumptions": ["ghost ranks describe the free chain (invariant invBitPool); pre-states not satisfying it are not considered reachable"],
